@@ -209,7 +209,13 @@ structure E2eFile where
 
 def dollarD : Str := [36, 68, 47] -- "$D/"
 
-def E2eFile.path (f : E2eFile) : Str := dollarD ++ f.name
+def relocPrefix : Str := [114, 101, 108, 111, 99, 47] -- "reloc/"
+
+/-- the path under which the converter opened the binary (converter.rs:1425-1447, utils.rs
+`open_file_with_fallback`): the mapped path `$D/<name>`; for a name `reloc/<base>` nothing exists there
+and the file is found as `$D/<base>`, next to the perf.data file. That path is what the profile records. -/
+def E2eFile.path (f : E2eFile) : Str :=
+  if f.present && f.name.take 6 == relocPrefix then dollarD ++ f.name.drop 6 else dollarD ++ f.name
 
 def E2eFile.lib (f : E2eFile) : LibInfo := convertLib f.path f.debugId f.buildId
 
